@@ -617,7 +617,7 @@ mod inner {
         #[cfg(feature = "autocomplete")]
         /// check if bpaf tries to complete last consumed element
         pub(crate) fn touching_last_remove(&self) -> bool {
-            self.comp.is_some() && self.items.len() - 1 == self.current.unwrap_or(usize::MAX)
+            self.comp.is_some() && self.current.map_or(false, |cur| cur + 1 == self.items.len())
         }
 
         #[cfg(feature = "autocomplete")]
